@@ -220,7 +220,7 @@ func (p *Prog) relax(o *Obligation) *Obligation {
 	for _, m := range reStrLen.FindAllStringSubmatch(text, -1) {
 		if !seen[m[1]] && balanced(m[1]) {
 			seen[m[1]] = true
-			n.Facts = append(n.Facts, fmt.Sprintf("(and (<= 0 (str.len %s)) (<= (str.len %s) 80))", m[1], m[1]))
+			n.Facts = append(n.Facts, fmt.Sprintf("(and (<= 0 (s.len %s)) (<= (s.len %s) 80))", m[1], m[1]))
 		}
 	}
 	return &n
